@@ -106,6 +106,15 @@ CHECKS = {
              "navigation result and every find_all / find / #n answer (including the error past the last match) is recomputed "
              "with the real API and must be identical.",
         note="Trusted: TLC; trees are built directly as LoopIR (no front end); expression sub-patterns limited to literals."),
+    "C17": dict(level=MC, design="6/C17",
+        technique="TLA+ PrintEnv naming-automaton specification (Injective) checked by TLC and replayed on the real printer; print/reparse pairs validated with ExoMachine/ExoEquiv",
+        text="TLC proves that the scoped naming scheme never prints two visible symbols alike for all histories of push/pop/get_name "
+             "over symbols whose base names include generated-looking names (x, x_1, y), and every history is replayed on the real "
+             "PrintEnv; the same injectivity predicate monitors every real print of corpus and derived procedures; the printed "
+             "text is parsed again by the real front end, must print identically, and TLC checks the reparsed procedure equivalent "
+             "to the original on all bounded inputs.",
+        note="Trusted: TLC; reparses rejected by the front end's incomplete static checks are counted, not failed; "
+             "already ill-scoped procedures are outside the claim."),
 }
 
 NOT_YET = {}
